@@ -100,7 +100,7 @@ def apply_props(rec, props, st):
 # ---------------------------------------------------------------------------
 PROFILES = {
     "C01": profile(p_bounds=1.0, p_scale=0.4, p_nonlinear=0.55, p_fixed=0.4, p_inconsistent=0.0,
-                   p_all_fixed=0.01, p_callback=0.6),
+                   p_all_fixed=0.01, p_callback=0.6, p_soc_bias=0.25, p_linear=0.45),
     "C02": profile(p_bounds=0.8, p_scale=0.4, p_nonlinear=0.6, p_linear=0.5, p_fixed=0.45, p_dict=0.4,
                    p_inconsistent=0.01, p_all_fixed=0.03),
     "C03": profile(p_nonlinear=0.7, p_linear=0.3, p_filter=0.4, p_noise=0.2),
@@ -110,11 +110,13 @@ PROFILES = {
     "C07": profile(p_all_fixed=0.08, p_inconsistent=0.08, p_target=0.3, p_no_obj=0.15, p_callback=0.6),
     "C08": profile(p_all_fixed=0.06, p_inconsistent=0.06, p_nan_bound=0.06, p_wide_radii=0.2, p_constants=0.4,
                    p_no_obj=0.12),
-    "C09": profile(p_no_obj=0.2, p_callback=1.0, p_nonlinear=0.55, p_inconsistent=0.0, p_all_fixed=0.0),
+    "C09": profile(p_no_obj=0.2, p_callback=1.0, p_nonlinear=0.55, p_inconsistent=0.0, p_all_fixed=0.0,
+                   p_soc_bias=0.3),
     "C20": profile(p_callback=1.0, p_scale=0.4, p_fixed=0.4, p_bounds=0.8, p_inconsistent=0.0, p_all_fixed=0.0,
                    p_filter=0.5, p_nonlinear=0.6),
     "C11": profile(p_callback=0.5, p_inconsistent=0.02, p_no_options=0.4, n_weights=[(3, 1), (5, 2), (4, 3), (1, 4)]),
-    "C12": profile(p_nonlinear=0.8, p_callback=0.1, p_inconsistent=0.0, p_all_fixed=0.0, maxfev_hi=140),
+    "C12": profile(p_nonlinear=0.8, p_callback=0.1, p_inconsistent=0.0, p_all_fixed=0.0, maxfev_hi=140,
+                   p_soc_bias=0.2),
     "C18": profile(p_wide_radii=0.35, p_constants=0.6, p_callback=0.1, p_inconsistent=0.0, p_all_fixed=0.0,
                    maxfev_hi=160, p_no_obj=0.15, p_linear=0.5,
                    obj_fams=[(4, "quad"), (1.5, "cubic"), (1.5, "rosen"), (1.5, "abs"), (1, "maxaff"), (1, "linear"),
@@ -396,6 +398,34 @@ def cut_case(prop, seed, idx, tier):
             if rk.harness_error:
                 continue
             cr.add_viols(W.c09(rk, st), payload_world(sk, plan, ["C09"]))
+        # target@k with a matching tolerance at every second-order-correction evaluation (and a few others): the
+        # pair (target, feasibility_tol) is chosen so that evaluation k is the first one to satisfy the request
+        if has_obj and consistent(stmt) and not refmodel.contradictory_limits(stmt):
+            table = []
+            for e in evs:
+                V, scale, has_nan = V_of(base, e)
+                table.append(None if (has_nan or e.fun is None or not math.isfinite(e.fun) or not math.isfinite(V)) else (e.fun, V))
+            picks = [e for e in evs if e.kind == "soc"][:6] + [e for e in evs if e.kind == "geo"][:2]
+            for e in picks:
+                tv = table[e.idx - 1]
+                if tv is None or tv[1] > 1e6:
+                    continue
+                f_k, V_k = tv
+                tol_k = V_k * (1.0 + 1e-6) + 1e-9
+                earlier_ok = all(t is not None and not (t[0] <= f_k and t[1] <= tol_k * (1.0 + 1e-6) + 1e-9) for t in table[: e.idx - 1])
+                if not earlier_ok:
+                    continue
+                s2 = copy.deepcopy(stmt)
+                s2["options"] = dict(s2.get("options") or {})
+                s2["options"]["target"] = float(f_k)
+                s2["options"]["feasibility_tol"] = float(tol_k)
+                r2 = run_client(s2, plan)
+                cr.account(r2)
+                cr.cut_points += 1
+                st["c09.target_tol_cuts"] += 1
+                st["c09.kind_" + str(e.kind)] += 1
+                if not r2.harness_error:
+                    cr.add_viols(W.c09(r2, st), payload_world(s2, plan, ["C09"]))
         # target@k / feasible@k
         if consistent(stmt) and not refmodel.contradictory_limits(stmt):
             best_f = math.inf
